@@ -274,8 +274,11 @@ impl ProgressBar {
 
     /// Update the `ProgressBar`'s inner [`ProgressState`]
     pub fn update(&self, f: impl FnOnce(&mut ProgressState)) {
-        self.state()
-            .update(Instant::now(), f, self.ticker.lock().unwrap().is_none());
+        // Read the ticker slot before locking the bar state: every other path takes the ticker
+        // lock first, and `stop_and_replace_ticker()` joins the ticker thread (which needs the
+        // bar state) while holding it.
+        let tick = self.ticker.lock().unwrap().is_none();
+        self.state().update(Instant::now(), f, tick);
     }
 
     /// Sets the position of the progress bar
